@@ -329,7 +329,7 @@ GRAMMAR_PROGRAMS = [
     'with a as b, c as (d, e), f: pass\nwith (a as b, c): pass\n',
     'x = a if b else c\ny = lambda a, b=1, *c, d, **e: (a, b)\nz = (yield)\nw = [*a, *b]\nv = {**a, "k": 1, **b}\nu = {1, 2, *c}\n',
     'a = f(x, *y, k=1, **z)\nb = g(i for i in j)\nc = h(*a, b, *c, d=1, *e, **f)\nd = a[1:2, ::3, ...]\ne = a.b.c[d](e)\n',
-    'x = f"a{b!r:>{w}}c{d=}" f"{e:{f}.{g}}"\ny = "s" "t" b"x".decode()\nz = 1_000 + 0x1F + 1e3 + 2j\n',
+    'x = f"a{b!r:>{w}}c{d=}" f"{e:{f}.{g}}"\ny = "s" "t"\nyb = b"x" b"y".decode()\nz = 1_000 + 0x1F + 1e3 + 2j\n',
     'a = not b or c and d\ne = a < b <= c != d is not e not in f\ng = -a ** -b\nh = (a := 1)\ni = a @ b // c % d << e >> f & g ^ h | i\nj = ~a + +b\n',
     'a += 1; b -= 2; c *= 3\nd @= e\nf: int = 3\n(g): int\nh.i: int = 2\ndel a, b[0], c.d\nassert a, "m"\nraise\nglobal G1, G2\npass\n',
     'def gen():\n    x = yield 1\n    y = yield from other()\n    await_ = (await z) if 0 else None\n    return x, y\n',
@@ -339,5 +339,7 @@ GRAMMAR_PROGRAMS = [
     'a = b = c = d\n(a, b), c = *d, e = f\n[a, *b] = c\na.b, c[d] = 1, 2\n',
     'lambda: 0\nlambda *a: a\nlambda **k: k\nlambda a, /: a\nlambda *, a: a\n',
     'def f():\n    """doc\n    more\n    """\n    b"""MAGIC\n        v1\n        """\n    x = """s\n      t"""\n    if x:\n        r"""raw\n            \\d"""\n        return 1\n',
+    'x = [\n    """multi\n    # not a comment""",\n    second,\n    third,  # c\n]\ny = f("""a\n# b""", k, *rest)\n',
+    '# about the function\n@deco1\n# about deco2\n@deco2(arg)\ndef decorated(): pass\n\n# about the class\n@cdeco\nclass Decorated(Base): pass\n',
     'class K:\n    """doc"""\n    b"""not a\n    docstring"""\n    def m(self):\n        """m doc\n        line\n        """\n        return b"""x\n        y"""\n',
 ]
